@@ -48,15 +48,29 @@ def _c11(tier):
     return c11.run(tier)
 
 
+def _c12(tier):
+    from . import c12
+
+    return c12.run(tier)
+
+
+def _c06(tier):
+    from . import c06
+
+    return c06.run(tier)
+
+
 CHECKS = {
     "C01": _keval("C01"),
     "C02": _keval("C02"),
     "C03": _keval("C03"),
     "C04": _c04,
     "C05": _c05,
+    "C06": _c06,
     "C07": _c07,
     "C10": _c10,
     "C11": _c11,
+    "C12": _c12,
     "C16": _c16,
 }
 
